@@ -51,6 +51,12 @@ func RunSharded(cmd string, args []string, n int) *Report {
 				out.Diverge(Divergence{Key: "data-race", Detail: tail(stderr.String()[i:], 6000)})
 			}
 			if child == nil {
+				if k, d := libraryPanic(stderr.String()); k != "" {
+					// the process died in a goroutine of the library with no harness frame on its stack: the library's own crash
+					out.Diverge(Divergence{Key: k, Detail: d})
+					out.AddExtra("shards_crashed_in_library", 1)
+					return
+				}
 				out.AddExtra("shards_failed", 1)
 				fmt.Fprintf(os.Stderr, "shard %d failed: %v\n%s\n", i, err, tail(stderr.String(), 3000))
 				return
@@ -66,6 +72,38 @@ func RunSharded(cmd string, args []string, n int) *Report {
 		}
 	}
 	return out
+}
+
+// libraryPanic recognises a crash of the shard process that happened in a goroutine of go-libipni on whose stack no
+// harness frame appears (for example a goroutine started by a constructor that dereferences a nil field).
+func libraryPanic(stderr string) (key, detail string) {
+	i := strings.Index(stderr, "panic: ")
+	if i < 0 {
+		return "", ""
+	}
+	rest := stderr[i:]
+	j := strings.Index(rest, "\ngoroutine ")
+	if j < 0 {
+		return "", ""
+	}
+	stack := rest[j+1:]
+	if e := strings.Index(stack, "\n\n"); e >= 0 {
+		stack = stack[:e]
+	}
+	if strings.Contains(stack, "verifharness/") || !strings.Contains(stack, "github.com/ipni/go-libipni/") {
+		return "", ""
+	}
+	fn := ""
+	for _, ln := range strings.Split(stack, "\n") {
+		if strings.HasPrefix(ln, "github.com/ipni/go-libipni/") {
+			fn = strings.TrimPrefix(ln, "github.com/ipni/go-libipni/")
+			if k := strings.Index(fn, "("); k > 0 && strings.HasSuffix(fn, ")") {
+				fn = fn[:strings.LastIndex(fn, "(")]
+			}
+			break
+		}
+	}
+	return "library-panic@" + fn, tail(rest[:min(len(rest), j+1+len(stack))], 4000)
 }
 
 func tail(s string, n int) string {
